@@ -19,6 +19,23 @@ def materialisation_programs():
     out.append(("const:intmin", xgen.HEAD + "proc main() is 0(s0 + #80000000)"))
     out.append(("const:fold-wrap", xgen.HEAD + "proc main() is 0(s0 + (2147483647 + 1))"))
     out.append(("const:fold-neg-wrap", xgen.HEAD + "proc main() is 0(s0 - (-#80000000))"))
+    out += pool_pair_programs()
+    return out
+
+def pool_pair_programs(tier='quick'):
+    """two constant-pool constants in ONE program (the pool is a map keyed by value: a key that loses information merges entries).
+    Families: c and c with bit k flipped, for every k in 0..31 (so any single bit dropped from the key is seen); c and -c, ~c, c+1,
+    c+65536, and the same low 16 / high 16 bits. Each is validated for all values of s0, s1 against the reference."""
+    out = []; seen = set()
+    def add(a, b):
+        a &= 0xffffffff; b &= 0xffffffff
+        if a == b or (a, b) in seen: return
+        seen.add((a, b))
+        out.append((f"const:pool-pair:{a:08X}:{b:08X}", xgen.HEAD + f"proc main() is 0((s0 + #{a:X}) - (s1 + #{b:X}))"))
+    for c in (0x7FFF0000, 0x00010000, 0x12345678):
+        for k in range(32): add(c, c ^ (1 << k))
+        for k in (31, 16, 0): add(c ^ (1 << k), c)          # the other order of first use
+        for d in (-c, ~c, c + 1, c + 65536, (c & 0xffff) | 0xABCD0000, (c & 0xffff0000) | 0x1234): add(c, d)
     return out
 
 def data_word(ck):
